@@ -1462,4 +1462,86 @@ theorem accepts_iff_50K (s : Text) : (F50K.parse s).isOk = true ↔ Doc.F50K s :
       | err => rw [ha] at hacc; cases hacc
       | panic => rw [ha] at hacc; cases hacc
 
+/-! ### 50G `/34x` + BIC and 50H `/34x` + `4*35x` -/
+
+theorem accepts_iff_50G (s : Text) :
+    (F50G.parse s).isOk = true ↔ ∃ l b, s = l ++ '\n' :: b ∧ Doc.AccountLine l ∧ Doc.Bic b := by
+  constructor
+  · intro h
+    unfold F50G.parse at h
+    have hj := joinNl_splitNl s
+    split at h
+    · rename_i l0 l1 hsp
+      rw [hsp] at hj
+      split at h
+      · rename_i acc ha
+        split at h
+        · rename_i b hb
+          exact ⟨l0, l1, hj.symm, (acctStrict_iff l0).mp (by rw [ha]; rfl), (accepts_iff_bic l1).mp (by rw [hb]; rfl)⟩
+        · cases h
+        · cases h
+      · cases h
+      · cases h
+    · cases h
+  · rintro ⟨l, b, rfl, hl, hb⟩
+    have hlnl := accountLine_no_nl l hl
+    have hbnl : ∀ c ∈ b, c ≠ '\n' := fun c hc => (upperOrDigit_not_nl_slash c (bic_chars b hb c hc)).1
+    have hacc := (acctStrict_iff l).mpr hl
+    have hok := (accepts_iff_bic b).mpr hb
+    unfold F50G.parse
+    rw [splitNl_append_nl l b hlnl, splitNl_no_nl b hbnl]
+    cases ha : acctStrict l with
+    | ok acc =>
+      cases hpb : parseBic b with
+      | ok bic => simp [ha, hpb, Res.isOk]
+      | err => rw [hpb] at hok; cases hok
+      | panic => rw [hpb] at hok; cases hok
+    | err => rw [ha] at hacc; cases hacc
+    | panic => rw [ha] at hacc; cases hacc
+
+theorem accepts_iff_50H (s : Text) :
+    (F50H.parse s).isOk = true ↔ ∃ l ls, s = joinNl (l :: ls) ∧ Doc.AccountLine l ∧ Doc.NameLines ls := by
+  constructor
+  · intro h
+    unfold F50H.parse at h
+    have hj := joinNl_splitNl s
+    split at h
+    · rename_i l0 l1 rest hsp
+      rw [hsp] at hj
+      split at h
+      · rename_i acc ha
+        split at h; · cases h
+        rename_i hall
+        split at h; · cases h
+        rename_i hlen
+        refine ⟨l0, l1 :: rest, hj.symm, (acctStrict_iff l0).mp (by rw [ha]; rfl), ?_, by omega, ?_⟩
+        · simp
+        · intro x hx
+          simp only [Bool.not_eq_true', Bool.not_eq_false] at hall
+          exact (nameLineOk_iff x).mp ((List.all_eq_true.mp hall) x hx)
+      · cases h
+      · cases h
+    · cases h
+  · rintro ⟨l, ls, rfl, hl, hn⟩
+    have hne : ls ≠ [] := by intro he; subst he; have := hn.1; simp at this
+    have hlnl := accountLine_no_nl l hl
+    have hsp := splitNl_joinNl (l :: ls) (by simp) (by
+      intro x hx
+      rcases List.mem_cons.mp hx with rfl | hx
+      · exact hlnl
+      · exact nameLines_no_nl ls hn x hx)
+    have hacc := (acctStrict_iff l).mpr hl
+    cases ls with
+    | nil => exact absurd rfl hne
+    | cons l1 rest =>
+      have hall : (l1 :: rest).all nameLineOk = true := List.all_eq_true.mpr (fun x hx => (nameLineOk_iff x).mpr (hn.2.2 x hx))
+      have hlen : ¬ (l1 :: rest).length > 4 := by have := hn.2.1; omega
+      have hlen' : ¬ (4 < rest.length + 1) := by simpa using hlen
+      unfold F50H.parse
+      rw [hsp]
+      cases ha : acctStrict l with
+      | ok acc => simp [ha, hall, hlen', Res.isOk]
+      | err => rw [ha] at hacc; cases hacc
+      | panic => rw [ha] at hacc; cases hacc
+
 end SwiftMT.Props.C05
